@@ -13,6 +13,7 @@ import M4ri.Glue
 import M4ri.TrsmBase
 import M4ri.PleRussian
 import M4ri.M4riElim
+import M4ri.EchelonTop
 import M4ri.Io
 import M4ri.Djb
 import M4ri.Mp
@@ -449,6 +450,40 @@ def runOpAlg (op : String) (a : Array Val) : R (Array Val × Option (Array Val))
     let full := (← argNat a 5) ≠ 0
     let R := PN.echelonizePluq (fun _ => (S.toB, P, Q, r)) A.toB full
     pure (#[.int R.2, inPlace A R.1], none)
+  -- ------------------------------------------------ exact mirrors of the top-level echelon-form / inversion entry points
+  -- (M4ri/EchelonTop.lean): automatic k, the real density switch, the real PLUQ-based routine; cache sizes as above
+  | "echelonize_exact" =>
+    -- A full L1 L2 L3 : `mzd_echelonize(A, full)`
+    let M ← argMat a 0; let full := (← argNat a 1) ≠ 0
+    let L1 ← argNat a 2; let L2 ← argNat a 3; let L3 ← argNat a 4
+    let (Rm, r) := ET.echelonize L1 L2 L3 M.toB full
+    pure (#[.int r, inPlace M Rm], if full then some #[.int M.toB.rank, inPlace M M.toB.rref] else none)
+  | "echelonize_m4ri_exact0" =>
+    -- A full k L1 L2 L3 : `mzd_echelonize_m4ri(A, full, k)`, every k ≥ 0 (0: chosen automatically)
+    let M ← argMat a 0; let full := (← argNat a 1) ≠ 0; let k ← argNat a 2
+    let L3 ← argNat a 5
+    let (Rm, r) := ET.echelonizeM4ri L3 M.toB full k
+    pure (#[.int r, inPlace M Rm], if full then some #[.int M.toB.rank, inPlace M M.toB.rref] else none)
+  | "echelonize_m4ri_h_exact" =>
+    -- A full k thr100 L1 L2 L3 : `_mzd_echelonize_m4ri(A, full, k, 1, thr100 / 100.0)`
+    let M ← argMat a 0; let full := (← argNat a 1) ≠ 0; let k ← argNat a 2; let thr ← argNat a 3
+    let L1 ← argNat a 4; let L2 ← argNat a 5; let L3 ← argNat a 6
+    let (Rm, r) := ET.echelonizeM4riTop L1 L2 L3 M.toB full k true (Float.ofNat thr / Float.ofNat 100)
+    pure (#[.int r, inPlace M Rm], if full then some #[.int M.toB.rank, inPlace M M.toB.rref] else none)
+  | "inv_m4ri_exact" =>
+    -- A L1 L2 L3 : `mzd_inv_m4ri(NULL, A, _)` for a square A (the inverse when A is invertible)
+    let A ← argMat a 0; let L3 ← argNat a 3
+    if A.nrows ≠ A.ncols then throw "die" else
+    let inv := ET.invM4riTop L3 A.toB
+    pure (#[.mat (ofB inv)], if A.toB.rank = A.nrows then some #[.mat (ofB (inverseSpec A.toB))] else none)
+  | "density_exact" =>
+    -- A res r c : `_mzd_density(A, res, r, c)`: the bits of the double, count and total
+    let A ← argMat a 0; let res ← argNat a 1; let r ← argNat a 2; let c ← argNat a 3
+    let p := ET.densityParts A.toB res r c
+    pure (#[.word (BitVec.ofNat 64 (ET.density A.toB res r c).toBits.toNat), .int p.1, .int p.2], none)
+  | "auto_k_exact" =>
+    -- nrows ncols L3 : the k chosen by `_mzd_echelonize_m4ri` / `_mzd_top_echelonize_m4ri` for k = 0
+    pure (#[.int (ET.autoK (← argNat a 0) (← argNat a 1) (← argNat a 2))], none)
   | _ => throw "unknown-op"
 
 open Mzd BMat in
